@@ -327,6 +327,25 @@ def check_property(pid, tier_):
         rc, search_rep, txt = run_json_tool(cmd, outp, 3400, penv)
         os.remove(outp)
 
+    # 5b. AIMED history search: a proof or tie broke and the property's own search found no failing input — look for
+    #     a call HISTORY on which the property's functions return different results (state carried between calls):
+    #     every call of random, ellipsoid/transformation-sharing sequences is replayed alone and in reversed order in
+    #     fresh processes (the C09 harness); a difference on one of this property's functions is a failing history.
+    if broken and not search_rep.get('violations') and not corr_violations and P.get('tie_functions') and pid != 'C09':
+        outp = os.path.join(WORK, f'hist_{pid}_{os.getpid()}.json')
+        try:
+            rc, hist_rep, txt = run_json_tool([PY, os.path.join(VERIF, 'harness', 'corr_purity.py'), '--out', outp], outp, 1200, env)
+            os.remove(outp)
+            fns = set(P['tie_functions']) | {f.split('.')[-1] for f in P['tie_functions']}
+            for v in hist_rep.get('violations', []):
+                if any(f in v.get('key', '') for f in fns):
+                    v = dict(v)
+                    v['key'] = 'history:' + v['key']
+                    search_rep.setdefault('violations', []).append(v)
+            search_rep['evaluations'] = search_rep.get('evaluations', 0) + hist_rep.get('evaluations', 0)
+        except Infra:
+            pass
+
     # 6. VERDICT
     known = [k for k in load_known() if k.get('property') == pid and k.get('status', 'open') == 'open']
     new_violations = []
